@@ -22,8 +22,10 @@ Part (b), accept loop.  The REAL ``vgi_rpc.rpc._transport._serve_socket_threaded
 ``accept()`` is a scheduling point (returns a connection queued by a client-connect event, raises ``TimeoutError``
 when a tick event says the 0.5 s accept time-out elapsed or when the whole system is quiescent — the virtual clock
 then jumps to the next timer deadline —, ``OSError`` once closed) and a stub ``server.serve`` that blocks until the
-client's disconnect event.  Environment: 1-2 clients (connect, disconnect), clock advances, accept time-out ticks;
-timers fire as environment tasks once due, at every position.
+client's disconnect event.  ``accept()`` time-outs (0.5 s in the real code) are delivered whenever a timer callback
+started or completed since the previous time-out — only timer callbacks write the shutdown flag, every other
+time-out re-reads an unchanged flag (stutter step) — and at global quiescence.  Environment: 1-2 clients (connect,
+disconnect), clock advances; timers fire as environment tasks once due, at every position.
 
   (idle)  when the accept loop exits by itself, at some moment between its last ``accept()`` and its first action
           after the loop (join / return) — the exit decision lies in that interval — no accepted connection was
@@ -63,7 +65,7 @@ RULE = (
     "{no worker, live worker, crashed worker with stale socket} and environment events {worker exits cleanly, worker "
     "crashes}; (b) all schedules (bound 2; thorough bound 3 on small configs) of the real _serve_socket_threaded with "
     "idle_timeout in {100 (grace 100), 10 (grace 60), None}, max_connections in {None, 1}, 1-2 clients "
-    "(connect/disconnect events), clock-advance events, accept-time-out ticks, serve() returning or raising; "
+    "(connect/disconnect events), clock-advance events, serve() returning or raising; "
     "non-trivial = schedule with >=1 choice point"
 )
 TECHNIQUE = (
@@ -80,17 +82,18 @@ LEVEL_NOTE = (
     "filelock, subprocess and kernel socket semantics are replaced by small models (cooperative lock, simulated "
     "worker start-up built from the real serve_unix helper functions, fake listening socket); virtual time advances "
     "only through explicit clock events and at global quiescence. Bounds: 2-3 launchers, 1-2 clients, <=3 clock "
-    "events, <=2 accept ticks, preemption bound 2 (3)."
+    "events, preemption bound 2 (3)."
 )
 ASSUMPTIONS = [
     "filelock.FileLock is replaced by a cooperative per-path mutex (mutual exclusion and non-blocking acquire trusted)",
     "the spawned worker is simulated: it runs the real _check_no_existing_listener/_unlink_stale_unix_socket, binds and listens on a real AF_UNIX socket and prints the UNIX: line; it never accepts (the kernel backlog completes probes)",
-    "the listening socket of the accept loop is a fake; accept() time-outs are delivered by explicit tick events or at global quiescence (the clock then jumps to the next timer deadline)",
+    "the listening socket of the accept loop is a fake; an accept() time-out is delivered after every start/completion of a timer callback (other time-outs re-read an unchanged shutdown flag and are stutter steps) and at global quiescence (the clock then jumps to the next timer deadline)",
     "threading.Timer expiry is an environment task enabled once the virtual clock reaches the deadline; a cancelled timer whose callback already started keeps running (as threading.Timer does)",
     "scheduling granularity: lock/semaphore/thread/timer operations, accept, serve, probe, Popen, readline (thorough tier additionally every source line of launch, gc_state_dir and _serve_socket_threaded)",
 ]
 
 _W: Any = None  # world of the execution in flight
+_DEV_CAP = int(os.environ.get("VF_DEV_CAP", "0")) or None  # development only: cap schedules per config (reported as a cap)
 
 
 # ======================================================================================
@@ -105,7 +108,8 @@ class BWorld:
         self.T = cfg["idle"]
         self.pending: list[Conn] = []
         self.conns: list[Conn] = []
-        self.ticks = 0
+        self.epoch = 0  # bumped whenever a timer callback starts or completes
+        self.seen_epoch = 0
         self.closed = False
         self.forced = False
         self.returned = False
@@ -158,7 +162,7 @@ class BWorld:
     def peek(self) -> tuple[Any, ...]:
         """(conn_count, shutdown_requested, timer is None) read from the closure cells of the timer callback."""
         for t in self.timers:
-            fn = t.function
+            fn = t.inner
             cl = getattr(fn, "__closure__", None)
             if not cl:
                 continue
@@ -181,7 +185,7 @@ class BWorld:
         return (
             self.clk.now, tuple(c.cid for c in self.pending),
             tuple((c.accepted, c.serving, c.serve_returned, c.disconnected, c.tclosed) for c in self.conns),
-            self.ticks, self.closed, pk, tuple((t.fired, t._cancelled) for t in self.timers),
+            self.epoch - self.seen_epoch, self.closed, pk, tuple((t.fired, t._cancelled) for t in self.timers),
         )
 
 
@@ -241,10 +245,12 @@ class ListenSock:
                 w.accepts += 1
                 self._window()
                 return c, "peer"
-            if w.ticks > 0:
-                w.ticks -= 1
+            if w.epoch != w.seen_epoch:
+                # the 0.5 s accept time-out is only observable after a timer callback ran (only those write the
+                # shutdown flag); every other time-out re-reads an unchanged flag and is a stutter step
+                w.seen_epoch = w.epoch
                 return self._timeout()
-            ok = S.block(lambda: w.closed or bool(w.pending) or w.ticks > 0, "accept-wait", timeout=True)
+            ok = S.block(lambda: w.closed or bool(w.pending) or w.epoch != w.seen_epoch, "accept-wait", timeout=True)
             if not ok:
                 # global quiescence: nothing else can run; let virtual time pass until the next timer is due
                 snap = (w.clk.now, w.accepts, tuple(t.fired for t in w.timers), w.peek())
@@ -297,12 +303,37 @@ class StubServer:
 
 class _Timer(S.CoopTimer):
     def __init__(self, interval: float, function: Any, args: Any = None, kwargs: Any = None) -> None:
-        super().__init__(interval, function, args, kwargs)
-        if _W is not None:
-            _W.timers.append(self)
+        w = _W
+        inner = function
+
+        def callback(*a: Any, **k: Any) -> Any:
+            w.epoch += 1
+            try:
+                return inner(*a, **k)
+            finally:
+                w.epoch += 1
+
+        super().__init__(interval, callback, args, kwargs)
+        self.inner = inner
+        w.timers.append(self)
 
 
 class _HThread(S.CoopThread):
+    """Per-connection thread.  The loop keeps them in a ``set``; a deterministic hash keeps its iteration (join)
+    order a function of the schedule."""
+
+    def __init__(self, *a: Any, **k: Any) -> None:
+        super().__init__(*a, **k)
+        w = _W
+        w.nthreads = getattr(w, "nthreads", 0) + 1
+        self._seq = w.nthreads
+
+    def __hash__(self) -> int:
+        return self._seq
+
+    def __eq__(self, other: Any) -> bool:
+        return self is other
+
     def join(self, timeout: float | None = None) -> None:
         w = _W
         if w is not None and not w.exit_seen:
@@ -375,11 +406,6 @@ def make_setup_b(cfg: dict[str, Any]):
             s.spawn(lambda i=i, kind=kind: client(i, kind == "hold"), f"client{i}", env=True)
         for j, dt in enumerate(cfg["clock"]):
             s.spawn(lambda dt=dt: w.clk.advance(dt), f"clock{j}", env=True)
-        for j in range(cfg.get("ticks", 0)):
-            def tick() -> None:
-                w.ticks += 1
-
-            s.spawn(tick, f"tick{j}", env=True)
         s.state_fn = w.state
         return w
 
@@ -438,41 +464,40 @@ def oracle_b(ctx: Ctx, cfg: dict[str, Any], x: S.Exec, tier: str) -> Any:
 def configs_b(ctx: Ctx) -> list[dict[str, Any]]:
     out: list[dict[str, Any]] = []
 
-    def add(idle: Any, clients: list[str], clock: list[float], ticks: int = 0, bound: int = 2, trace: bool = False, **kw: Any) -> None:
-        out.append({"idle": idle, "clients": clients, "clock": clock, "ticks": ticks, "bound": bound, "trace": trace, **kw})
+    def add(idle: Any, clients: list[str], clock: list[float], bound: int = 2, trace: bool = False, **kw: Any) -> None:
+        out.append({"idle": idle, "clients": clients, "clock": clock, "bound": bound, "trace": trace, **kw})
 
     if ctx.quick:
         add(100.0, [], [100.0])
-        add(100.0, ["quick"], [100.0], ticks=1)
-        add(100.0, ["hold"], [100.0], ticks=1)
-        add(100.0, ["hold"], [50.0, 50.0], ticks=1)
-        add(100.0, ["quick"], [100.0, 100.0], ticks=1)
-        add(100.0, ["hold", "quick"], [100.0], ticks=1)
-        add(100.0, ["hold", "hold"], [100.0], max_conn=1)
-        add(10.0, ["hold"], [60.0], ticks=1)
-        add(10.0, ["quick"], [10.0, 50.0], ticks=1)
-        add(10.0, ["hold"], [5.0, 5.0], ticks=0)
-        add(None, ["hold", "quick"], [100.0], ticks=1)
-        add(100.0, ["hold"], [100.0], ticks=1, serve_raises=True)
-        add(100.0, ["quick"], [100.0], ticks=1, bound=1, trace=True)
-        add(100.0, ["hold"], [100.0], ticks=0, bound=1, trace=True)
+        add(100.0, ["quick"], [100.0])
+        add(100.0, ["hold"], [100.0])
+        add(100.0, ["hold"], [50.0, 50.0])
+        add(100.0, ["quick"], [100.0, 100.0], bound=1)
+        add(100.0, ["hold", "quick"], [100.0], bound=1)
+        add(100.0, ["hold", "hold"], [100.0], bound=1, max_conn=1)
+        add(10.0, ["hold"], [60.0])
+        add(10.0, ["quick"], [10.0, 50.0], bound=1)
+        add(10.0, ["hold"], [5.0, 5.0])
+        add(None, ["hold", "quick"], [100.0])
+        add(100.0, ["hold"], [100.0], serve_raises=True)
+        add(100.0, ["quick"], [100.0], bound=1, trace=True)
+        add(100.0, ["hold"], [], bound=1, trace=True)
         return out
-    for idle, clocks in ((100.0, ([100.0], [50.0, 50.0], [100.0, 100.0], [50.0, 100.0, 50.0])), (10.0, ([60.0], [10.0, 50.0], [5.0, 5.0], [60.0, 10.0]))):
+    for idle, clocks in ((100.0, ([100.0], [50.0, 50.0], [100.0, 100.0])), (10.0, ([60.0], [10.0, 50.0], [5.0, 5.0]))):
         for clock in clocks:
-            add(idle, [], clock, ticks=1)
+            add(idle, [], clock)
             for cl in (["quick"], ["hold"]):
-                for ticks in (0, 1, 2):
-                    add(idle, cl, clock, ticks=ticks, bound=3 if len(clock) == 1 and ticks < 2 else 2)
-            for cl in (["hold", "quick"], ["hold", "hold"], ["quick", "quick"]):
-                add(idle, cl, clock, ticks=1)
-                add(idle, cl, clock, ticks=1, max_conn=1)
-        add(idle, ["hold"], clocks[0], ticks=1, serve_raises=True)
-        add(idle, ["hold", "quick"], clocks[0], ticks=1, serve_raises=True, max_conn=1)
-        add(idle, ["quick"], clocks[0], ticks=1, bound=2, trace=True)
-        add(idle, ["hold"], clocks[0], ticks=1, bound=2, trace=True)
-        add(idle, ["hold", "quick"], clocks[0], ticks=1, bound=1, trace=True)
-    add(None, ["hold", "quick"], [100.0], ticks=2)
-    add(None, ["hold", "hold"], [100.0], ticks=1, max_conn=1)
+                add(idle, cl, clock, bound=3 if len(clock) == 1 else 2)
+            for cl in (["hold", "quick"], ["hold", "hold"]):
+                add(idle, cl, clock, bound=2 if len(clock) == 1 else 1)
+                add(idle, cl, clock, bound=1, max_conn=1)
+        add(idle, ["hold"], clocks[0], serve_raises=True)
+        add(idle, ["hold", "quick"], clocks[0], bound=1, serve_raises=True, max_conn=1)
+        add(idle, ["quick"], clocks[0], bound=2, trace=True)
+        add(idle, ["hold"], clocks[0], bound=2, trace=True)
+        add(idle, ["hold", "quick"], [], bound=1, trace=True)
+    add(None, ["hold", "quick"], [100.0])
+    add(None, ["hold", "hold"], [100.0], max_conn=1)
     return out
 
 
@@ -863,7 +888,7 @@ def configs_a(ctx: Ctx) -> list[dict[str, Any]]:
 def _explore(ctx: Ctx, part: str, cfg: dict[str, Any], setup: Any, orc: Any, trace: Any) -> None:
     st = S.explore(
         ctx, setup, lambda x: orc(ctx, cfg, x, ctx.tier), bound=cfg["bound"], label=f"{part}:" + json.dumps(cfg, sort_keys=True),
-        trace=trace if cfg["trace"] else None, env_cost=1 if ctx.quick else 0,
+        trace=trace if cfg["trace"] else None, env_cost=1 if ctx.quick else 0, max_execs=_DEV_CAP,
     )
     ctx.extra[f"{part}_schedules"] += st["schedules"]
     ctx.extra[f"{part}_configs"] += 1
